@@ -286,3 +286,14 @@ Proof.
   - rewrite H, italic_test_generic.
     apply fin_italic_use; [left; reflexivity|apply weight_words_in|apply slant_words_in].
 Qed.
+
+Lemma subfamily_tests_lemma :
+  forall F : font,
+    contains s_Italic (subfamily F) = negb (f_oblique F) && f_italic F /\
+    contains s_Bold (subfamily F) && negb (contains s_SemiBold (subfamily F))
+      && negb (contains s_ExtraBold (subfamily F)) = name_says_bold F.
+Proof.
+  intros F. split.
+  - exact (subfamily_italic_test F).
+  - exact (subfamily_bold_test F).
+Qed.
